@@ -52,7 +52,9 @@ type strictFile struct {
 	errs    []string
 }
 
-func (f *strictFile) errf(format string, a ...any) { f.errs = append(f.errs, fmt.Sprintf(format, a...)) }
+func (f *strictFile) errf(format string, a ...any) {
+	f.errs = append(f.errs, fmt.Sprintf(format, a...))
+}
 
 // objectAt returns dictionary text and stream data of the object at off.
 func (f *strictFile) objectAt(off int64, wantNum int) (dict string, data []byte, ok bool) {
@@ -416,6 +418,12 @@ func TestFileStructureExact(t *testing.T) {
 			}
 		}
 		for n, e := range want {
+			if e.Type == 1 && e.F3 == 1 {
+				kinds["has-generation-1-object"]++
+			}
+			if e.Type == 0 && n != 0 && e.F3 == 1 {
+				kinds["has-freed-object"]++
+			}
 			g, ok := f.entries[n]
 			hiddenFree := bt.Spec.Write.XRef == XRefHybrid && bt.Spec.Write.HybridHiddenFree && e.Type == 2
 			if hiddenFree {
